@@ -150,7 +150,21 @@ class C04Oracle:
             tot = sum(vols.values(), Fr(0))
             self.count("sub_tiling_checked")
             if V == 0 or abs(tot - V) > Fr(1, 10 ** 7) * V or any(v == 0 for v in vols.values()):
-                out.append(("sub_tiling", f"sub-simplices of {tuple(map(int, sx))} have total volume {float(tot)!r}, "
+                clause = "sub_tiling"
+                if V > tot and all(v != 0 for v in vols.values()) and len(st.vertices) <= 9:
+                    # mechanism of the recorded finding: the missing volume is exactly a set of pieces the implementation's own
+                    # flatness test (Triangulation._simplex_is_almost_flat, unnormalised coordinates) refuses to create
+                    flat = []
+                    for cand in itertools.combinations(range(len(st.vertices)), len(sx)):
+                        if cand in st.simplices:
+                            continue
+                        v = abs(signed_vol([F(st.vertices[int(i)]) for i in cand]))
+                        if v != 0 and v <= V - tot and st._simplex_is_almost_flat(cand):
+                            flat.append(v)
+                    if flat and any(abs(sum(c, Fr(0)) - (V - tot)) <= Fr(1, 10 ** 6) * (V - tot)
+                                    for k in range(1, min(len(flat), 3) + 1) for c in itertools.combinations(flat, k)):
+                        clause = "sub_tiling:almost_flat_piece_skipped"
+                out.append((clause, f"sub-simplices of {tuple(map(int, sx))} have total volume {float(tot)!r}, "
                                           f"the simplex has {float(V)!r} ({len(vols)} pieces, pending vertices "
                                           f"{st.vertices[len(sx):][:4]})"))
                 continue
